@@ -26,7 +26,7 @@ def sh(cmd, cwd=None, timeout=3000):
 
 def baseline_pass(wt):
     want = set(json.load(open("/root/.vp/BASELINE.json"))["stable_pass"])
-    rc, out = sh("go test -vet=off -count=1 -json ./... 2>/dev/null", cwd=wt, timeout=1500)
+    rc, out = sh("go test -vet=off -json ./... 2>/dev/null", cwd=wt, timeout=1500)  # cached for packages the change does not reach (fixed worktree path)
     passed = set()
     for line in out.split("\n"):
         try:
@@ -57,7 +57,7 @@ def main():
             "demo_cmd": a.demo, "ran": []}
     base = subprocess.run(["git", "-C", os.path.join(a.mutdir, "repo"), "rev-parse", "HEAD"], capture_output=True, text=True).stdout.strip()
     meta["base_commit"] = base
-    wt = "/tmp/evalmut_%s" % sid
+    wt = "/tmp/evalmut_wt"
     if not a.skip_validate:
         sh("git -C /repo worktree remove --force %s" % wt)
         rc, out = sh("git -C /repo worktree add --detach %s %s" % (wt, base))
